@@ -86,6 +86,7 @@ package tengo
 //@ func extern fmt.Errorf
 //@   assigns nothing
 //@   ensures result != nil && fresh(result)
+//@   ensures wraps_first{C14}: spec.fmt_wraps0(format) ==> spec.wrapped(result, a[0])
 //@ func extern strings.Join
 //@   assigns nothing
 //@ func extern bytes.Equal
@@ -243,15 +244,34 @@ package tengo
 // VM dispatch loop: step contracts (one clause per loop iteration)
 // ---------------------------------------------------------------------------
 
+// Run: the error handed to the embedder unwraps to the error the dispatch loop stopped with
+// (a sentinel or a host function's error), through the "Runtime Error" prefix and every trace line.
+//@ func (*VM).Run
+//@   props C14
+//@   mode panics-allowed
+//@   requires fn0: v.frames[0].fn != nil
+//@   requires noerr: v.err == nil
+//@   assigns *
+//@   ensures unwraps{C14}: v.err != nil ==> result != nil && spec.unwraps(result, v.err)
+//@   ensures silent{C14}: v.err == nil ==> result == nil
+//@   loop 0 invariant chain{C14}: err != nil && spec.unwraps(err, v.err) && v.err == pre(v.err)
+
+//@ func (*CompiledFunction).SourcePos
+//@   props C14
+//@   assigns nothing
+//@   loop 0 assigns nothing
+
 //@ func (*VM).run
 //@   props C06 C02
 //@   mode panics-allowed bounds
 //@   private v
 //@   requires rep: v.curFrame == &v.frames[v.framesIndex-1]
 //@   requires frames: 1 <= v.framesIndex && v.framesIndex <= MaxFrames
+//@   requires noerr: v.err == nil
 //@   assigns *
 //@   loop 0 invariant rep{C02,C06,C16}: v.curFrame == &v.frames[v.framesIndex-1]
 //@   loop 0 invariant frames{C06}: 1 <= v.framesIndex && v.framesIndex <= MaxFrames
+//@   loop 0 invariant noerr{C14,C06}: v.err == nil
 //@   loop 0 let op = v.curInsts[v.ip+1]
 //@   loop 0 let o8 = int(v.curInsts[v.ip+2])
 //@   loop 0 let o16 = int(v.curInsts[v.ip+3]) | int(v.curInsts[v.ip+2])<<8
@@ -305,8 +325,11 @@ package tengo
 //@   loop 0 step err_call{C14}: exited && op == parser.OpCall && called(Call) && callresult(Call, 1) != nil
 //@                  && callresult(Call, 1) != ErrWrongNumArguments && !is(callresult(Call, 1), ErrInvalidArgumentType)
 //@              ==> v.err == callresult(Call, 1)
-//@   loop 0 step err_alloc{C14}: exited && v.err == ErrObjectAllocLimit ==> v.allocs == 0
-//@   loop 0 step err_overflow{C14,C06}: exited && v.err == ErrStackOverflow ==> op == parser.OpCall && it0(v.framesIndex) >= MaxFrames
+// the engine itself raises its sentinels only for their own reason (errors handed back by operands, host
+// functions and selector assignment are passed through unchanged and may be anything)
+//@   loop 0 let passthrough = op == parser.OpBinaryOp || op == parser.OpIndex || op == parser.OpSetSelGlobal || op == parser.OpSetSelLocal || op == parser.OpSetSelFree
+//@   loop 0 step err_alloc{C14}: exited && v.err == ErrObjectAllocLimit && !passthrough && !called(Call) ==> v.allocs == 0
+//@   loop 0 step err_overflow{C14,C06}: exited && v.err == ErrStackOverflow && !passthrough && !called(Call) ==> op == parser.OpCall && it0(v.framesIndex) >= MaxFrames
 // --- C06: frame limit
 //@   loop 0 step frames{C06}: continued ==> v.framesIndex == it0(v.framesIndex)
 //@                  || (op == parser.OpCall && v.framesIndex == it0(v.framesIndex) + 1 && it0(v.framesIndex) < MaxFrames)
